@@ -106,6 +106,18 @@ def estimate (payer : Nat) (ixs : List Ix) (versioned : Bool) (luts : Option (Li
     baseLen (nSigners payer ixs) (keysOf payer ixs).length ixs +
       (if versioned then 1 + compactLen 0 else 0)
 
+/-- `transaction_size(payer, ixs, is_versioned, lookup_table, lookup_table_addresses)` — the variant
+used by `TransactionBuilder`: ONE merged set of lookup addresses (every account found in it is
+dropped, then signers and programs are added back) and a table count supplied by the caller. -/
+def estimateSet (payer : Nat) (ixs : List Ix) (versioned : Bool) (lut : Option (List Nat))
+    (nTables : Nat) : Nat :=
+  let K := keysOf payer ixs
+  let after := match lut with
+    | some t => K.countP (fun k => !t.contains k || isSigner payer ixs k || isInvoked ixs k)
+    | none => K.length
+  baseLen (nSigners payer ixs) after ixs + (K.length - after) +
+    (if versioned then 1 + compactLen 0 + nTables * (32 + 2) else 0)
+
 /-- bytes of the address-table-lookup section of a v0 message. -/
 def lookupsLen (used : List (Nat × Nat)) : Nat :=
   compactLen used.length + (used.map (fun s => 32 + compactLen s.1 + s.1 + compactLen s.2 + s.2)).sum
